@@ -651,6 +651,15 @@ func runC10Free(c C10Case, interesting bool) (st Stats, err error) {
 	s, _, _ := c10Setup(c)
 	G := len(c.Progs)
 	results := make([][]c10Result, G)
+	// every goroutine also owns a PRIVATE stack of the same make (mutex included) and repeats each of its operations
+	// there: nobody else touches it, so its answers and final content are those of a sequential run of that one
+	// program - whatever the other goroutines do to other stacks meanwhile (package-level scratch state would show here)
+	priv := make([]stackage.Stack, G)
+	privModel := make([]*ListModel, G)
+	privResults := make([][]c10Result, G)
+	for g := 0; g < G; g++ {
+		priv[g], privModel[g], _ = c10Setup(c)
+	}
 	panics := make([]string, G)
 	start := make(chan struct{})
 	var wg sync.WaitGroup
@@ -666,6 +675,7 @@ func runC10Free(c C10Case, interesting bool) (st Stats, err error) {
 			<-start
 			for i, op := range c.Progs[g] {
 				results[g] = append(results[g], c10ApplyReal(s, g, i, op))
+				privResults[g] = append(privResults[g], c10ApplyReal(priv[g], g, i, op))
 			}
 		}(g)
 	}
@@ -687,6 +697,20 @@ func runC10Free(c C10Case, interesting bool) (st Stats, err error) {
 		v.Key = "free/" + v.Key
 		v.Msg += fmt.Sprintf("; programs %+v init %d; results %v", c.Progs, c.Init, results)
 		return st, v
+	}
+	for g := 0; g < G; g++ {
+		var want []c10Result
+		for i, op := range c.Progs[g] {
+			want = append(want, c10ApplyModel(privModel[g], g, i, op))
+		}
+		got, pv := c10Final(priv[g], c)
+		if pv != nil {
+			pv.Key = "free/private-stack/" + pv.Key
+			return st, pv
+		}
+		if fmt.Sprint(privResults[g]) != fmt.Sprint(want) || fmt.Sprint(got) != fmt.Sprint(privModel[g].Elems) {
+			return st, violf("free/private-stack", "goroutine %d's own stack (touched by nobody else) answered %v and holds %v; a sequential run of its program %+v answers %v and leaves %v", g, privResults[g], got, c.Progs[g], want, privModel[g].Elems)
+		}
 	}
 	if v := c10CheckHistory(c, results, final, "free-running"); v != nil {
 		v.Key = "free/" + v.Key
